@@ -389,11 +389,12 @@ def rule_decode_side(repo, res):
     if not ok:
         res.add(Finding("DT", "ODLDecoder.decode_datetime", "offset fields", "the zone offset is no longer built from the hour and "
                         "minute groups of the pattern", where=f"pvl/decoder.py:{fn.lineno}"))
-    negs = [n for n in ast.walk(fn) if isinstance(n, ast.If) and isinstance(n.test, ast.Compare) and len(n.test.ops) == 1
+    negs = [n for n in ast.walk(fn) if isinstance(n, (ast.If, ast.IfExp)) and isinstance(n.test, ast.Compare) and len(n.test.ops) == 1
             and isinstance(n.test.ops[0], ast.Eq) and group(n.test.left, "sign")
             and isinstance(n.test.comparators[0], ast.Constant) and n.test.comparators[0].value == "-"]
+    arm = lambda n: n.body if isinstance(n, ast.If) else [n.body]           # what happens for '-': statements, or the chosen operand
     ok = bool(negs) and any("-1 * " in norm(b) or isinstance(x, ast.UnaryOp) and isinstance(x.op, ast.USub) and not isinstance(x.operand, ast.Constant)
-                            for n in negs for b in n.body for x in ast.walk(b))
+                            for n in negs for b in arm(n) for x in ast.walk(b))
     res.oblige("DT", "ODLDecoder.decode_datetime: a '-' sign negates the offset", ok=ok)
     if not ok:
         res.add(Finding("DT", "ODLDecoder.decode_datetime", "sign", "the sign group of the zone offset no longer negates the "
